@@ -98,6 +98,15 @@ func (f *FIBModule) add(interest *spec.Interest, pitToken []byte, inFace uint64)
 		cost = *params.Cost
 	}
 	table.FibStrategyTable.InsertNextHopEnc(params.Name, faceID, cost)
+	// As in rib/register: the face may have been removed (and its next hops cleaned up)
+	// between the check above, or the arrival of the command on it, and the insertion.
+	// That clean-up will not run again, so take the next hop back out.
+	if face.FaceTable.Get(faceID) == nil {
+		table.FibStrategyTable.RemoveNextHopEnc(params.Name, faceID)
+		response = makeControlResponse(410, "Face does not exist", nil)
+		f.manager.sendResponse(response, interest, pitToken, inFace)
+		return
+	}
 
 	core.LogInfo(f, "Created nexthop for ", params.Name, " to FaceID=", faceID, "with Cost=", cost)
 	responseParams := map[string]any{
